@@ -3,6 +3,7 @@ PROPERTY_GROUPS = {
     'C02': ['rep'],
     'C13': ['httprange'],
     'C14': ['events'],
+    'C19': ['dt'],
     'C20': ['bufreader'],
 }
 
